@@ -21,3 +21,11 @@ ENTRY = {
         "no uint64 overflow (slots < 2^63); FetchAttOnBlock* feature flags off (default); SSE-triggered early fetch and the real sleeping of delaySlotOffset are not covered",
     ],
 }
+
+# In production the scheduler resolves duties through the duties cache of app/eth2wrap (C20): "a definition set equal
+# to the beacon node's assignments" holds only if the cache answers what the node answers, also after a chain reorg
+# invalidation (app.go subscribes Scheduler.HandleChainReorgEvent and DutiesCache.InvalidateCache to the same event).
+# The cache's stream is part of this check with its answer-equality monitors.
+ENTRY["streams"] = ENTRY["streams"] + [{"name": "cache", "drive": "drive-cache", "model": "drv-dutiescache", "reset_ops": ["cfg"],
+                                        "n_quick": 30000, "seeds_quick": 1, "n_thorough": 300000, "seeds_thorough": 2, "search_seeds": 1}]
+ENTRY["monitor_sigs"] = list(ENTRY.get("monitor_sigs") or ["sched:"]) + ["dutiescache:stale_after_invalidate", "dutiescache:answer_differs", "dutiescache:"]
